@@ -9,8 +9,12 @@ under the hypothesis that no late edge appears (`Props/C01Dynamic.lean`).  Gener
 * `execBody_pure` / `runClosure_pure` — running a pure body under a tracker;
 * `RunPostD`, `runNodeUpdate_dyn` — `run_node_update` of a pure computation: the dependency list is
   REPLACED by the tracked reads of the run;
-* `StructD`, `LoopInvD`, `LoopInvD.skip`, `LoopInvD.run`, `propagateLoop_dyn` — the loop invariant;
-* `visitStarts_sched` — the first loop, from `Up` and `NoDangling` only.
+* `StructD`, `DepsCurrent`, `EvolvesD`, `LoopInvD`, `LoopInvD.skip`, `LoopInvD.run` — the loop
+  invariant; the new edges of a node that just ran must come from nodes that are not pending;
+* `NoLateRun` (trace hypothesis), `propagateLoop_dyn_run`; `LateOk` (static hypothesis),
+  `lateOk_noLateRun`, `propagateLoop_dyn`;
+* `visitStarts_sched` — the first loop, from `Up` and `NoDangling` only;
+* `readOnly_pure` — read-only bodies are pure bodies without branches.
 
 Only core Lean is used.
 -/
